@@ -388,8 +388,11 @@ def classify_c05(cls, ev):
     if ev["ev"] == "RT":
         f = text_features(ev["v"], ev["kind"] == "obj")
         if cls == "printed-form-rejected":
-            return sorted(f & {"predicate-id-forms-quote-at-bracket", "text-containing-literal-type-delimiter"})
-        if cls == "panic" and ev["site"] == LIT_PARSE and "[1:0]" in ev["msg"]:
+            # (a text starting with ^^type: makes the parser panic today and is rejected with an error
+            # once the parser checks its slice bounds; both are the same first-delimiter defect)
+            return sorted(f & {"predicate-id-forms-quote-at-bracket", "text-containing-literal-type-delimiter",
+                               "text-starting-with-type-delimiter"})
+        if cls == "panic" and panic_class(ev["kind"], rec_text(ev["printed"]), ev["site"], ev["msg"]) == ["literal-parse-delimiter-at-start"]:
             return sorted(f & {"text-starting-with-type-delimiter", "predicate-object-id-starting-with-type-delimiter"})
         return []
     if ev["ev"] == "GRT":
@@ -398,13 +401,25 @@ def classify_c05(cls, ev):
                 return ["int64-uuid-varint-overflow"]
             return []
         f = set()
-        for t in ev["g"]:
-            f |= text_features(t)
+        for i in ev["bad"]:                      # only the triples whose own round trip fails
+            f |= text_features(ev["g"][i - 1])
         feat = set(ev["feat"])
         if cls == "read-error":
-            if "newline-inside-value" not in feat:
-                f.discard("text-containing-line-break")
-            return sorted(f - {"text-starting-with-type-delimiter", "predicate-object-id-starting-with-type-delimiter"})
+            f &= {"predicate-id-forms-quote-at-bracket", "text-containing-literal-type-delimiter", "text-starting-with-type-delimiter"}
+            if "newline-inside-value" in feat and any("text-containing-line-break" in text_features(t) for t in ev["g"]):
+                f.add("text-containing-line-break")
+            return sorted(f)
+        if cls == "read-panic" and "newline-inside-value" in feat:
+            # a text with a line feed is written as several lines; a parser may panic on one of the pieces
+            for t in ev["g"]:
+                for r in t:
+                    if r["k"] == "lit" and r["a"] == "text" and b"\n" in rec_text(r["b"]):
+                        frags = rec_text(r["b"]).split(b"\n")
+                        frags[-1] += b'"^^type:text'
+                        # the first piece ends the line that starts the triple: its object is `"` ++ piece
+                        if panic_class("obj", b'"' + frags[0], ev["site"], ev["msg"]) or \
+                                any(panic_class("triple", fr, ev["site"], ev["msg"]) for fr in frags[1:]):
+                            return ["text-containing-line-break"]
         if cls == "read-panic" and ev["site"] == LIT_PARSE and "[1:0]" in ev["msg"]:
             return sorted(f & {"text-starting-with-type-delimiter", "predicate-object-id-starting-with-type-delimiter"})
         if cls in ("graph-differs", "read-count") and "line-over-64k" in feat and not ev["rerr"]:
@@ -519,7 +534,7 @@ def check(prop):
                     "a mutation / alternate spelling of a valid text or a Layer B candidate. Exhaustive part: all strings up to length %d over the "
                     "18-character delimiter alphabet for each of the 5 parsers, up to length %d over 7-character per-parser alphabets, "
                     "token sequences up to %d tokens; mutations (truncate/delete/duplicate/inject) of printed values, random strings "
-                    "and files are seeded." % ((3, 5, 4) if tier == "quick" else (4, 6, 5)),
+                    "and files are seeded." % ((3, 4, 4) if tier == "quick" else (4, 6, 5)),
             "exhaustive": False,
         })
         v.assumptions += [
@@ -549,3 +564,50 @@ def retimeout(ev):
         return False
     except Exception:
         return True
+
+
+# ------------------------------------------------------------------------------------------------
+# negative control of the monitor (DESIGN 2.4): corrupt one logged field per event type and require
+# ValueTrace.tla to reject exactly that line.   python3 lib/fam_values.py --selftest
+
+
+def selftest():
+    vlib.build_harness(["valuedrv"])
+    d = vlib.scratch("values-selftest-")
+    flips = {
+        "RT": lambda e: e.update(reprinted=e["reprinted"] + "x"),
+        "GRT": lambda e: e.update(rcount=e["rcount"] + 1),
+        "UP": lambda e: e.update(ueq=not e["ueq"]),
+        "US": lambda e: e.update(child="00" + e["child"][2:] if not e["child"].startswith("00") else "11" + e["child"][2:]),
+        "P": lambda e: e.update(out="nil"),
+        "RD": lambda e: e.update(count=e["count"] + 1),
+    }
+    ok = True
+    for mode in ("rt", "uuid", "parse"):
+        trace, _, _ = run_driver(mode, d, [])
+        base_rej, _, _, _ = validate(trace)
+        base = set(r[0] for r in base_rej)
+        lines = open(trace).read().splitlines()
+        want = {}
+        for i, ln in enumerate(lines):
+            e = json.loads(ln)
+            if e["ev"] in flips and e["ev"] not in want and (i + 1) not in base and e.get("out", "ok") in ("ok", "value", "error") \
+                    and not e.get("dom") and not e.get("panic") and i > 50:
+                flips[e["ev"]](e)
+                lines[i] = json.dumps(e)
+                want[e["ev"]] = i + 1
+        mut = os.path.join(d, mode + "-corrupt.ndjson")
+        with open(mut, "w") as fh:
+            fh.write("\n".join(lines) + "\n")
+        rej, _, _, _ = validate(mut)
+        got = set(r[0] for r in rej) - base
+        print("selftest %s: corrupted lines %s -> newly rejected lines %s" % (mode, sorted(want.values()), sorted(got)))
+        ok = ok and got == set(want.values())
+    print("selftest", "PASSED" if ok else "FAILED")
+    return 0 if ok else 1
+
+
+if __name__ == "__main__":
+    import sys
+    if "--selftest" in sys.argv:
+        vlib.main_wrap(selftest)
